@@ -65,6 +65,14 @@ func GenConfig(t *rapid.T, fees []uint, limits bool) world.Config {
 	if cfg.FeeMode == lnmodel.FeeConst {
 		cfg.FeeConst = rapid.Uint64Range(0, 20).Draw(t, "fee_const")
 	}
+	// two histories in five run with one of the repository's own backend adapters (Core Lightning over an imitation of
+	// the node's REST interface, LND over imitations of its rpc clients) between the mint and the Lightning model
+	switch rapid.SampledFrom([]string{"", "", "", "cln", "lnd"}).Draw(t, "via_adapter") {
+	case "cln":
+		cfg.ViaCLN = true
+	case "lnd":
+		cfg.ViaLND = true
+	}
 	if limits {
 		cfg.Limits = mint.MintLimits{}
 	}
@@ -1515,7 +1523,7 @@ func (m *Machine) opLockedSpend(t *rapid.T) bool {
 		_, err = w.Swap(cashu.Proofs{in}, m.honestOutputs(in.Amount-f2))
 	} else {
 		amt := in.Amount - f2
-		for amt > 0 && amt+w.LN.FeeFor(amt)+f2 > in.Amount {
+		for amt > 0 && amt+w.ReserveFor(amt)+f2 > in.Amount {
 			amt--
 		}
 		if amt == 0 {
